@@ -174,4 +174,168 @@ example : sepNodes (1/100000000) [0, 1/2, 1] [0, 1/2 + 1/1000000000, 1] = false
     ∧ rowSum (lineTess (1/100000000) (cells [0, 1/2, 1]) (cells [0, 1/2 + 1/1000000000, 1])) 1
         = 1/2 - 1/1000000000 := by decide +kernel
 
+/-! ## 2-D part: `_convex_polygons_common_area`, `triangulations`, `match_2d`
+
+`commonArea S T` mirrors the implementation (Sutherland–Hodgman clipping of `S` against the half-planes
+of `T`, shoelace area, absolute value).  Proved here, for ALL inputs:
+  * the reported overlaps are positive, indices valid, and the dense overlap matrix has the entries
+    `commonArea` (or 0 where the bounding-box filter skips the pair);
+  * `clip_split` / `bsp_overlaps_sum`: cutting a cell by a line splits the overlap with any polygon `S`
+    additively; hence for a tessellation obtained by successive cuts (binary space partition — e.g. an
+    unperturbed structured triangle grid: vertical, horizontal and diagonal lines), with the cells
+    represented by the half-planes along the path, the overlaps with `S` sum to the area of `S`;
+  * the clipped polygon of a convex counter-clockwise `S` has non-negative shoelace area;
+  * `match_2d`'s averaged rows / integrated columns sum to one IF the row / column sums of
+    `triangulations` equal the (positive) cell areas.
+NOT proved (what remains for "Σ_t area(S ∩ t) = area(S)" for two arbitrary triangulations): that the
+shoelace area of the clipping result depends only on the point set `S ∩ T` — i.e. independence of the
+order of the half-planes and of redundant half-planes (which would identify the BSP cell of a triangle
+with the triangle's own three half-planes as the code uses them), symmetry
+`commonArea S T = commonArea T S`, and that the bounding-box filter only skips pairs with overlap 0.
+These are covered by the correspondence (model = code on every generated pair) and by the oracle
+(sums = measures on the real code). -/
+
+open PorepyVerif.C44 (Pt HP area2 shClip2 halfPlanes ConvexCCW)
+
+/-- `_convex_polygons_common_area` never returns a negative number. -/
+theorem common_area_nonneg (S T : Poly) : 0 ≤ commonArea S T := commonArea_nonneg S T
+
+/-- every overlap reported by `triangulations` is positive (the `area > 0` filter) and is the common
+    area of the two triangles -/
+theorem tri_tess_pos (ps qs : List Poly) :
+    ∀ t ∈ triTess ps qs, 0 < t.2.2 ∧ ∃ S ∈ ps, ∃ T ∈ qs, t.2.2 = commonArea S T := by
+  intro t ht
+  obtain ⟨S, hS, T, hT, hv⟩ := tess_mem_val triPair ps qs 0 t ht
+  refine ⟨triPair_pos S T _ hv, S, hS, T, hT, ?_⟩
+  unfold triPair at hv
+  split_ifs at hv
+  exact (Option.some.inj hv).symm
+
+theorem tri_tess_indices (ps qs : List Poly) :
+    ∀ t ∈ triTess ps qs, t.1 < ps.length ∧ t.2.1 < qs.length := by
+  intro t ht
+  have := tess_bounds triPair (fun S T w h => le_of_lt (triPair_pos S T w h)) ps qs 0 t ht
+  exact ⟨by omega, this.2.2.1⟩
+
+/-- entry `(i, j)` of the dense overlap matrix of `triangulations` -/
+theorem tri_tess_entry (ps qs : List Poly) (i j : Nat) (S T : Poly) (hS : ps[i]? = some S)
+    (hT : qs[j]? = some T) :
+    entry (triTess ps qs) i j = if outsideBox S T = true then 0 else commonArea S T := by
+  have h := entry_tessFrom triPair ps qs 0 i j S T hS hT
+  rw [Nat.zero_add] at h
+  unfold triTess
+  rw [h, ov_triPair]
+
+/-- the overlaps reported for triangle `i` of the first triangulation add up to the sum of its common
+    areas with the candidate triangles of the second -/
+theorem tri_tess_rowsum_eq (ps qs : List Poly) (i : Nat) (S : Poly) (hS : ps[i]? = some S) :
+    rowSum (triTess ps qs) i
+      = (qs.map (fun T => if outsideBox S T = true then 0 else commonArea S T)).sum := by
+  have h := rowSum_tessFrom triPair ps qs 0 i S hS
+  rw [Nat.zero_add] at h
+  unfold triTess
+  rw [h, sumOv_eq_sum]
+  congr 1
+  exact List.map_congr_left (fun T _ => ov_triPair S T)
+
+theorem tri_tess_colsum_eq (ps qs : List Poly) (j : Nat) (T : Poly) (hT : qs[j]? = some T) :
+    colSum (triTess ps qs) j
+      = (ps.map (fun S => if outsideBox S T = true then 0 else commonArea S T)).sum := by
+  unfold triTess
+  rw [colSum_tessFrom triPair ps qs 0 j T hT, sumOvL_eq_sum]
+  congr 1
+  exact List.map_congr_left (fun S _ => ov_triPair S T)
+
+/-- Sutherland–Hodgman keeps a convex counter-clockwise polygon convex counter-clockwise, and such a
+    polygon has non-negative shoelace area: no absolute value is needed for ccw `S`. -/
+theorem clip_area2_nonneg (hs : List HP) (S : Poly) (hc : ConvexCCW S) : 0 ≤ clipArea2 hs S :=
+  area2_nonneg_of_convex _ (convex_shClip2 hs S hc)
+
+theorem common_area_eq_clip (S T : Poly) (hc : ConvexCCW S) :
+    commonArea S T = clipArea2 (halfPlanes T) S / 2 := by
+  unfold commonArea
+  rw [rabs_of_nonneg _ (clip_area2_nonneg _ S hc)]
+
+/-- SPLIT: cutting the cell `hs` by the line of `h` splits its overlap with ANY closed vertex list `S`
+    additively (twice the signed areas; no convexity needed). -/
+theorem clip_split (hs : List HP) (h : HP) (hnd : nondeg h = true) (S : Poly) :
+    clipArea2 (hs ++ [h]) S + clipArea2 (hs ++ [negHP h]) S = clipArea2 hs S :=
+  clipArea2_split hs h hnd S
+
+/-- the overlaps of `S` with the cells of a binary space partition of the cell `hs` add up to the
+    overlap with `hs` -/
+theorem bsp_overlaps_sum (t : BSP) (hwf : t.wf = true) (hs : List HP) (S : Poly) :
+    ((t.cells hs).map (fun c => clipArea2 c S)).sum = clipArea2 hs S := by
+  induction t generalizing hs with
+  | leaf => simp [BSP.cells]
+  | node h l r ihl ihr =>
+    simp only [BSP.wf, Bool.and_eq_true] at hwf
+    simp only [BSP.cells, List.map_append, List.sum_append]
+    rw [ihl hwf.1.2, ihr hwf.2]
+    exact clip_split hs h hwf.1.1 S
+
+/-- … in particular a partition of the whole plane: the overlaps add up to the area of `S`. -/
+theorem bsp_overlaps_sum_all (t : BSP) (hwf : t.wf = true) (S : Poly) :
+    ((t.cells []).map (fun c => clipArea2 c S)).sum = area2 S :=
+  bsp_overlaps_sum t hwf [] S
+
+/-- `match_2d(…, "averaged")`: rows sum to one, PROVIDED the overlaps of every cell of the new grid sum
+    to its (positive) area — the tessellation property, which is what remains unproved in general. -/
+theorem match2d_avg_rows_one_of_rowsum (ps qs : List Poly)
+    (hsum : ∀ i S, ps[i]? = some S → rowSum (triTess ps qs) i = polyArea S ∧ 0 < polyArea S) :
+    ∀ row ∈ match2d .averaged ps qs, row.sum = 1 := by
+  intro row hrow
+  unfold match2d match2dFrom dense at hrow
+  obtain ⟨i, _, hi, rfl⟩ := mem_tabFrom _ 0 _ row hrow
+  rw [Nat.zero_add] at hi
+  obtain ⟨S, hS⟩ : ∃ S, ps[i]? = some S := ⟨ps[i], List.getElem?_eq_getElem hi⟩
+  rw [sum_row_dense]
+  · refine Eq.trans (rowSum_scale_row (fun i => (ps.map polyArea).getD i 0) _ i) ?_
+    show rowSum (triTess ps qs) i / (ps.map polyArea).getD i 0 = 1
+    rw [getD_map_polyArea ps i S hS, (hsum i S hS).1]
+    exact div_self (ne_of_gt (hsum i S hS).2)
+  · intro t ht
+    simp only [scaleVol, List.mem_map] at ht
+    obtain ⟨t0, ht0, rfl⟩ := ht
+    exact (tri_tess_indices ps qs t0 ht0).2
+
+/-- `match_2d(…, "integrated")`: columns sum to one under the corresponding hypothesis. -/
+theorem match2d_int_cols_one_of_colsum (ps qs : List Poly)
+    (hsum : ∀ j T, qs[j]? = some T → colSum (triTess ps qs) j = polyArea T ∧ 0 < polyArea T) :
+    ∀ j, j < qs.length → colSumDense (match2d .integrated ps qs) j = 1 := by
+  intro j hj
+  obtain ⟨T, hT⟩ : ∃ T, qs[j]? = some T := ⟨qs[j], List.getElem?_eq_getElem hj⟩
+  unfold match2d match2dFrom
+  rw [colSumDense_dense _ _ _ j hj]
+  · refine Eq.trans (colSum_scale_col (fun j => (qs.map polyArea).getD j 0) _ j) ?_
+    show colSum (triTess ps qs) j / (qs.map polyArea).getD j 0 = 1
+    rw [getD_map_polyArea qs j T hT, (hsum j T hT).1]
+    exact div_self (ne_of_gt (hsum j T hT).2)
+  · intro t ht
+    simp only [scaleVol, List.mem_map] at ht
+    obtain ⟨t0, ht0, rfl⟩ := ht
+    exact (tri_tess_indices ps qs t0 ht0).1
+
+/-! ### non-vacuity (2-D) -/
+
+def triLL : Poly := [⟨0, 0⟩, ⟨1, 0⟩, ⟨0, 1⟩]          -- lower left half of the unit square
+def triLR : Poly := [⟨0, 0⟩, ⟨1, 0⟩, ⟨1, 1⟩]          -- the other diagonal: lower right half
+def triUL : Poly := [⟨0, 0⟩, ⟨1, 1⟩, ⟨0, 1⟩]
+def triUR : Poly := [⟨1, 0⟩, ⟨1, 1⟩, ⟨0, 1⟩]
+
+/-- two triangulations of the unit square by its two diagonals: every pair overlaps in 1/4 -/
+example : triTess [triLL, triUR] [triLR, triUL]
+    = [(0, 0, 1/4), (0, 1, 1/4), (1, 0, 1/4), (1, 1, 1/4)] := by decide +kernel
+
+example : match2d .averaged [triLL, triUR] [triLR, triUL] = [[1/2, 1/2], [1/2, 1/2]] := by
+  decide +kernel
+
+/-- triangles that only share an edge are not reported (`area > 0`), clockwise input is handled -/
+example : triTess [triLR] [triUL, triUL.reverse, triLR.reverse] = [(0, 2, 1/2)] := by decide +kernel
+
+/-- a BSP of the plane: the diagonal `x = y`, then on one side the line `x + y = 1`; the overlaps of
+    `triLL` with the three cells are 1/2, 0 and 1/2 (twice the areas 1/4, 0, 1/4) and sum to `area2 triLL = 1` -/
+example : ((BSP.node ⟨1, -1, 0⟩ (BSP.node ⟨1, 1, 1⟩ .leaf .leaf) .leaf).cells []).map
+      (fun c => clipArea2 c triLL) = [1/2, 0, 1/2] ∧ area2 triLL = 1 := by decide +kernel
+
 end PorepyVerif.C33
